@@ -480,7 +480,7 @@ theorem dispatch_lab (hlaw : PendLaw env.ops Pend) (htt : TextTypeOk env.tbl TT 
 theorem stateFn_lab (hlaw : PendLaw env.ops Pend) (htt : TextTypeOk env.tbl TT = true)
     (hph : PhaseOk env.tbl P = true) (m : M κ) (h : LabInv TT P Pend m) :
     LabPost TT P Pend (stateFn env inp m) := by
-  rw [stateFn_split]
+  rw [stateFn_preConsume]
   cases hsd : env.tbl.state? m.c.state with
   | none => exact LabPost_of_sig (by simp) rfl
   | some sd =>
